@@ -104,6 +104,22 @@ CLAIMED = {
        "tr(Sq^-1 Sp) + d^T Sq^-1 d is cited; the Cholesky log_prob path delegates to torch (assumed); precondition: a batch index tensor "
        "that becomes the event dimension selects distinct elements; batch ranks enumerated.",
   technique="contract-based deductive verification: AST-extracted real functions, elementwise tensor domain + uninterpreted matrix functionals, z3; refutation by 2x2 instantiation"),
+ "C02": dict(
+  category="other",
+  text="Proof tier (counted): the real ExactMarginalLogLikelihood.forward / _add_other_terms with the real named_priors / "
+       "added_loss_terms traversals are executed symbolically (batch ranks 0 and 1, 0..3 priors on the model and a sub-module, 0..2 added "
+       "losses, symbolic n and batch size) and z3 discharges MLL[b] = (log N(y_b; marginal) + sum added[b] + sum_p sum_e log prior_p[b, e]) / n, "
+       "the call order likelihood(f) then log_prob(y), prior closures evaluated on the owning module, and no reduction across batch elements; "
+       "SumMarginalLogLikelihood = mean of the members applied to their own arguments; MultivariateNormal.log_prob = the Gaussian log "
+       "density (shared with C10). Bounded tier (not counted): dense float64 value AND gradient w.r.t. every raw hyperparameter on the "
+       "Cholesky path for homoskedastic / fixed-noise / multitask-Kronecker likelihoods, priors, batch shapes; the LOO objective against the n "
+       "true leave-one-out predictive log densities computed by deleting each point.",
+  design_ref="DESIGN.md section 5, C02",
+  note="Callee contracts: the likelihood marginal (C12) and MultivariateNormal.log_prob (C10, which trusts inv_quad_logdet). Gradient "
+       "equality = value equality as a function of the raw parameters + correct autograd of torch / linear_operator (assumed; checked "
+       "numerically in the bounded tier). LeaveOneOutPseudoLikelihood is covered by the bounded tier only. Stochastic CG/Lanczos path: "
+       "assumed exact.",
+  technique="contract-based deductive verification: AST-extracted real functions, modular callee contracts (stubs), z3"),
 }
 REASON_NOT_BUILT = "contracts for this property are not built yet in this revision (see DESIGN.md section 9 build order); not claimed until its obligations are discharged by the checker"
 
